@@ -271,6 +271,8 @@ class Sym:
     def _poly_uncached(self, t):
         k = t[0]
         if k == "const":
+            if t[2] in ("f64", "f32"):
+                return None
             if isinstance(t[1], bool):
                 return Poly.const(int(t[1]))
             if isinstance(t[1], int):
@@ -317,6 +319,8 @@ class Sym:
                 if v.signed:
                     nm = "s(" + nm + ")"
                 return Poly.sym(nm)
+        if k == "bin" and len(t) == 5:
+            return None
         if k == "bin":
             op = t[1]
             if op in ("Add", "Sub", "Mul", "AddUnchecked", "SubUnchecked", "MulUnchecked"):
@@ -501,6 +505,12 @@ class Sym:
         if k == "param":
             return "arg%d" % t[1]
         if k == "const":
+            if t[2] in ("f64", "f32") and isinstance(t[1], int):
+                import struct
+                try:
+                    return repr(struct.unpack("<d", struct.pack("<Q", t[1]))[0]) if t[2] == "f64" else repr(struct.unpack("<f", struct.pack("<I", t[1]))[0])
+                except Exception:
+                    return str(t[1])
             return str(t[1])
         if k == "call":
             r = None
@@ -539,6 +549,10 @@ class Sym:
             return t[1]
         if k == "un":
             return "%s(%s)" % (t[1].lower(), self.arg_name(t[2]))
+        if k == "bin":
+            return "%s(%s,%s)" % (t[1], self.arg_name(t[2]), self.arg_name(t[3]))
+        if k == "cast":
+            return "(%s as %s)" % (self.arg_name(t[2]), t[3])
         r = self.ev.region(t)
         if r is not None:
             return self.region_name(r)
@@ -611,6 +625,8 @@ class Sym:
             if not d["pr"]:
                 dest_ty = pp.ty(self.an.body.locals[d["l"]]["ty"])
             return "%s->%s" % (s, dest_ty)
+        if "uom::si::" in t[1] and t[1] not in self.prog.bodies:
+            return "uom::" + split_path(t[1])[-1]
         return t[1] if t[1] in self.prog.bodies else s
 
     # ------------------------------------------------------------------ atoms
@@ -672,7 +688,15 @@ class Sym:
         while d[0] == "un" and d[1] == "Not":
             d = strip(d[2])
             tr = not tr
+        fl = self.is_float_cmp(d)
+        if fl:
+            c = as_cmp(d, True)
+            if c is not None:
+                op, a, b = c
+                return [("fcmp", op if tr else "not " + op, self.arg_name(a), self.arg_name(b))]
         c = as_cmp(d, tr)
+        if c is not None and c[0].startswith("Not"):
+            return [("fcmp", "not " + c[0][3:], self.arg_name(c[1]), self.arg_name(c[2]))]
         if c is not None:
             op, a, b = c
             # bit-level equality / inequality against constants
@@ -758,6 +782,19 @@ class Sym:
             if defs and len(defs) <= 4:
                 return [("pred", "phi(%s)" % "|".join(sorted(self.name(x) for x in defs)), tr)]
         return [("pred", self.name(d), tr)]
+
+    def is_float_cmp(self, d):
+        """comparison of floats / uom quantities (no integer normalisation applies)"""
+        d = strip(d)
+        if d[0] == "bin" and len(d) == 5:
+            return True
+        if d[0] == "call" and short(d[1]) in ("PartialOrd::lt", "PartialOrd::le", "PartialOrd::gt", "PartialOrd::ge", "PartialEq::eq", "PartialEq::ne"):
+            blk = self.an.body.blocks[d[3]]["t"]
+            for g in blk.get("gargs") or []:
+                gs = pp.ty(g)
+                if g.get("k") == "float" or "uom::si::Quantity" in gs or gs in ("f64", "f32"):
+                    return True
+        return False
 
     def iter_name(self, t):
         t = unmut(t)
